@@ -8,7 +8,7 @@ import TensorModel.Ext.Hooks
         `defaultengine_linalg.go` and the package-level functions of `api_arith.go`
         (`Inner`, `MatVecMul`, `MatMul`, `Outer`, `Contract`, `Dot`) and `(*Dense).Trace`;
   * §3  S: textbook sums of products on logical arrays;
-  * §4  known-defect regions (F51, F55, F56, F58; F50, F52, F53, F54, F57 are repaired) and the family record.
+  * §4  known-defect regions (F51, F56, F58; F50, F52, F53, F54, F55, F57 are repaired) and the family record.
 
   Step syntax:  `la <inner|mv|mm|outer|dot|tdot|trace> <fn|meth> $a [$b] [axesA axesB] [opts…]`
   (`tdot` takes the two axis lists; `trace` takes one operand; opts = `reuse=$k`, `incr=$k`, `unsafe`).
@@ -479,6 +479,13 @@ def mulScalar (scId tId : Nat) (leftTensor : Bool) (o : LOpts) : LM Nat := do
   let out ← lift (engArithScalar s "mul" numberTypes t { win := ⟨b, 0, 1, 1⟩, dt := sc.dt } leftTensor opts)
   applyEngOut out tId rid
 
+/-- the test `StdEng.Dot` makes on the reuse tensor of a vector·vector product before it is handed to
+    `handleReuse`: the operands' element type, exactly one element (`sanity` accepts any storage for a
+    rank-0 shape, so `reuseCheckShape` alone would not refuse a longer tensor) -/
+def dotInnerReuseCheck (opDt reuseDt : String) (reuseShape : Shape) : Res Unit := do
+  if reuseDt != opDt then throwErr "dtypeMismatch reuse"
+  if totalSize reuseShape != 1 then throwErr "shapeMismatch reuse"
+
 /-- `StdEng.Dot(x, y, opts...)`; `tmul` is `(*Dense).TensorMul` -/
 def dotCore (tmul : Nat → Nat → List Int → List Int → LM Nat) (aId bId : Nat) (o : LOpts) : LM Nat := do
   let a ← getObj aId
@@ -518,10 +525,22 @@ def dotCore (tmul : Nat → Nat → List Int → List Int → LM Nat) (aId bId :
   | .inner =>
     if a.size != b.size then failE "shapeMismatch"
     let v ← engInner aId bId
-    let (s, bf) := (← getSt).alloc #[v]
-    putSt s
-    -- New(FromScalar(ret)): the reuse / incr tensors are not looked at
-    addObj { ap := { shape := [], strides := [], fin := true }, win := ⟨bf, 0, 1, 1⟩, dt := a.dt }
+    -- the scalar product goes through `handleReuse` / `handleIncr` like the matrix products
+    let rd ← (match o.reuse with
+      | some r => do
+        let reuse ← getObj r
+        lift (dotInnerReuseCheck a.dt reuse.dt reuse.shape)
+        let _ ← handleReuse (some r) [] (!o.unsafe_)
+        -- rd.Set(0, ret)
+        let reuse ← getObj r
+        putSt (← lift ((← getSt).set reuse.win 0 v))
+        pure r
+      | none => do
+        -- New(FromScalar(ret))
+        let (s, bf) := (← getSt).alloc #[v]
+        putSt s
+        addObj { ap := { shape := [], strides := [], fin := true }, win := ⟨bf, 0, 1, 1⟩, dt := a.dt } : LM Nat)
+    handleIncr rd o.incr []
   | .vecMat =>
     -- bT := shallow copy of b (same storage window, metadata of its own); bT.T(); return bT.MatVecMul(a, ...)
     -- the caller's `b` is not written
@@ -541,17 +560,21 @@ def dotCore (tmul : Nat → Nat → List Int → List Int → LM Nat) (aId bId :
     let rd ← tryCatch (tmul aId bId [lastA] [slB]) (fun e => match e with
       | .err t => failP s!"panic(err): {t}"
       | .panic t => failP t)
-    match o.reuse with
-    | some r =>
-      -- copyDense(reuse, rd); reuse.setAP(rd.Info().Clone())     (the incr tensor is not looked at)
-      let reuse ← getObj r
-      let rdD ← getObj rd
-      if reuse.dt != rdD.dt then failP "Cannot copy DenseTensors of different types"
-      let (s, reuse') ← lift (Dense.copyDense (← getSt) reuse rdD)
-      putSt s
-      putObj r { reuse' with ap := rdD.ap }
-      pure r
-    | none => pure rd
+    let ret ← (match o.reuse with
+      | some r => do
+        -- copyDense(reuse, rd); reuse.setAP(rd.Info().Clone())
+        let reuse ← getObj r
+        let rdD ← getObj rd
+        if reuse.dt != rdD.dt then failP "Cannot copy DenseTensors of different types"
+        let (s, reuse') ← lift (Dense.copyDense (← getSt) reuse rdD)
+        putSt s
+        putObj r { reuse' with ap := rdD.ap }
+        pure r
+      | none => pure rd : LM Nat)
+    -- handleIncr(res, reuse, incr, res.Shape())
+    match o.incr with
+    | some _ => handleIncr ret o.incr (← getObj ret).shape
+    | none => pure ret
 
 /-- `t.Clone()` as a temporary -/
 def cloneObj (id : Nat) : LM Nat := do
@@ -890,12 +913,6 @@ def Excl_tmulColMajor (a b : Dense) : Bool := a.ap.o.col || b.ap.o.col
 def Excl_reuseView (reuse : Option Dense) : Bool :=
   match reuse with | some d => d.view | none => false
 
-/-- F55: `Dot` ignores the reuse / incr tensors on the vector·vector path (fresh rank-0 result) and the
-    incr tensor on the tensor path. -/
-def Excl_dotIgnoresDest (a b : Dense) (hasReuse hasIncr : Bool) : Bool :=
-  (dotCase a.shape b.shape == .inner && (hasReuse || hasIncr)) ||
-  (dotCase a.shape b.shape == .tensor && hasIncr)
-
 def excl (ps : PState) (toks : List String) : List String × Bool :=
   match parseLa toks with
   | none => ([], false)
@@ -908,7 +925,6 @@ def excl (ps : PState) (toks : List String) : List String × Bool :=
       let f51 := c.op != "trace" && Excl_mixedOrder ([a, b] ++ dest)
       let isTm := c.op == "tdot" || (c.op == "dot" && dotCase a.shape b.shape == .tensor)
       let f58 := ["mv", "mm", "outer", "dot"].contains c.op && Excl_reuseView po.o.reuse
-      let f55 := c.op == "dot" && Excl_dotIgnoresDest a b po.o.reuse.isSome po.o.incr.isSome
       let f56 := isTm && Excl_tmulColMajor a b
       let dc := dotCase a.shape b.shape
       let f24 := Excl_shortStrides a || Excl_shortStrides b
@@ -917,7 +933,7 @@ def excl (ps : PState) (toks : List String) : List String × Bool :=
       -- keeps the pending transpose but not the axes it was made with) the shared storage is physically
       -- transposed under `b`
       let f39 := c.op == "dot" && dc == .vecMat && T_materialises b []
-      ((if f51 then ["F51"] else []) ++ (if f55 then ["F55"] else []) ++
+      ((if f51 then ["F51"] else []) ++
        (if f56 then ["F56"] else []) ++ (if f58 then ["F58"] else []) ++ (if f24 then ["F24"] else []) ++
        (if f39 then ["F39"] else []), true)
     | _, _ => ([], false)
